@@ -27,16 +27,18 @@ type vShape struct {
 	AS [2][]int64
 	N  vShNest
 	IF interface{}
-	SA [][2]*vShIn          // slice of arrays holding pointers
+	SA [][2]*vShIn           // slice of arrays holding pointers
 	MA map[string][2][]int64 // map of arrays holding slices
-	ST []vShArr             // slice of structs holding an array of pointers
+	ST []vShArr              // slice of structs holding an array of pointers
+	SI []interface{}         // slice of interfaces holding pointers / maps / slices
+	MI map[string]interface{}
 }
 
 type vShArr struct {
 	P [1]*vShIn
 }
 
-var vhShapes = []string{"PS", "PT", "SS", "SP", "M", "MS", "AP", "AS", "N.L", "N.P", "IF", "SA", "MA", "ST"}
+var vhShapes = []string{"PS", "PT", "SS", "SP", "M", "MS", "AP", "AS", "N.L", "N.P", "IF", "SA", "MA", "ST", "SI", "SIM", "IFS", "MI"}
 
 // vhShapeBuild fills the chosen container with the payload x and
 // returns functions reading the payload back / mutating the cell in place.
@@ -184,6 +186,62 @@ func vhShapeBuild(o *vShape, shape string, x int64) (read func(*vShape) (int64, 
 			}, func(s *vShape) {
 				s.IF.([]*vShIn)[0].X++
 			}
+	case "SI": // slice of interfaces, the element holds a pointer
+		o.SI = []interface{}{"s", &vShIn{X: x}}
+		return func(s *vShape) (int64, bool) {
+				if len(s.SI) != 2 {
+					return 0, false
+				}
+				p, ok := s.SI[1].(*vShIn)
+				if !ok || p == nil {
+					return 0, false
+				}
+				return p.X, true
+			}, func(s *vShape) {
+				s.SI[1].(*vShIn).X++
+			}
+	case "SIM": // slice of interfaces, the element holds a map (what encoding/json builds)
+		o.SI = []interface{}{map[string]interface{}{"k": x}}
+		return func(s *vShape) (int64, bool) {
+				if len(s.SI) != 1 {
+					return 0, false
+				}
+				m, ok := s.SI[0].(map[string]interface{})
+				if !ok {
+					return 0, false
+				}
+				v, ok := m["k"].(int64)
+				return v, ok
+			}, func(s *vShape) {
+				m := s.SI[0].(map[string]interface{})
+				m["k"] = m["k"].(int64) + 1
+			}
+	case "IFS": // interface holding a slice of interfaces holding a slice
+		o.IF = []interface{}{[]int64{x}}
+		return func(s *vShape) (int64, bool) {
+				l, ok := s.IF.([]interface{})
+				if !ok || len(l) != 1 {
+					return 0, false
+				}
+				in, ok := l[0].([]int64)
+				if !ok || len(in) != 1 {
+					return 0, false
+				}
+				return in[0], true
+			}, func(s *vShape) {
+				s.IF.([]interface{})[0].([]int64)[0]++
+			}
+	case "MI": // map of interfaces holding pointers
+		o.MI = map[string]interface{}{"k": &vShIn{X: x}}
+		return func(s *vShape) (int64, bool) {
+				p, ok := s.MI["k"].(*vShIn)
+				if !ok || p == nil {
+					return 0, false
+				}
+				return p.X, true
+			}, func(s *vShape) {
+				s.MI["k"].(*vShIn).X++
+			}
 	}
 	panic("shape")
 }
@@ -210,8 +268,12 @@ func VH_C14_clone() {
 // changes what later reads return; two reads share no mutable memory.
 func VH_C14_db() {
 	cfg := vhPickCfg()
-	shapes := []string{"PS", "PT", "SS", "SP", "M", "MS", "AP", "AS", "N.L", "N.P", "SA", "MA", "ST"}
+	shapes := []string{"PS", "PT", "SS", "SP", "M", "MS", "AP", "AS", "N.L", "N.P", "SA", "MA", "ST", "SI", "SIM", "IFS", "MI"}
 	shape := shapes[vChoice("shape", len(shapes))]
+	dynamic := shape == "SI" || shape == "SIM" || shape == "IFS" || shape == "MI"
+	if dynamic && !cfg.cache && !cfg.async {
+		return // interface-typed payloads change dynamic type through the file: memory-served reads only
+	}
 	x := vInt64("x")
 	root := vTempDir()
 	db := Open(root)
@@ -221,7 +283,7 @@ func VH_C14_db() {
 	vAssert("C14.db.insert", db.InsertOrUpdate(src) == nil)
 	mutate(src)
 	// after a reopen the first read is served from the file (cache miss)
-	if vChoice("reopen", 2) == 1 {
+	if !dynamic && vChoice("reopen", 2) == 1 {
 		vAssert("C14.db.close", db.Close() == nil)
 		db = Open(root)
 	}
